@@ -60,3 +60,19 @@ def solve(clauses, assumptions=()):
 
 def satisfies(clauses, model: dict[int, bool]) -> bool:
     return all(any(model.get(abs(l), False) == (l > 0) for l in c) for c in clauses)
+
+
+def solve_fast(clauses, assumptions=()):
+    """Same contract as solve(), decided by z3 (for formulas too long for the plain DPLL above; independent of cirbo)."""
+    import z3
+    variables = sorted({abs(l) for c in clauses for l in c} | {abs(a) for a in assumptions})
+    bv = {v: z3.Bool(f'v{v}') for v in variables}
+    s = z3.Solver()
+    for c in clauses:
+        s.add(z3.Or([bv[abs(l)] if l > 0 else z3.Not(bv[abs(l)]) for l in c]) if c else z3.BoolVal(False))
+    for a in assumptions:
+        s.add(bv[abs(a)] if a > 0 else z3.Not(bv[abs(a)]))
+    if s.check() != z3.sat:
+        return None
+    m = s.model()
+    return {v: bool(z3.is_true(m.eval(bv[v], model_completion=True))) for v in variables}
